@@ -77,7 +77,38 @@ def main():
     ck.set("simulated_steps", s2["steps"])
     ck.set("max_doc_len_simulated", s2["max_doc_len"])
 
-    ck.set("traces_validated_against_impl", len(edges) + s2["behaviours"] + walks)
+    # --- LspSession.tla: the document's life cycle on a real proxy.Server ------------------------------------
+    smc = vlib.tlc("LspSession", "LspSession_mc.cfg", workers=1, timeout=300)
+    ck.add_tlc(smc, "LspSession_mc")
+    if not smc.ok:
+        raise vlib.InfraError("LspSession_mc: %s violated in the model" % smc.violated)
+    sneg = vlib.tlc("LspSession", "LspSession_neg.cfg", workers=1, timeout=300)
+    if sneg.violated != "ServerTracksEditor":
+        raise vlib.InfraError("LspSession_neg (DidOpen keeps the preloaded copy) was not rejected by ServerTracksEditor")
+    snum = 1500 if thorough else 300
+    ssim = vlib.tlc("LspSession", "LspSession_sim.cfg", workers=1, simulate="num=%d" % snum, depth=20,
+                    tlc_seed=ck.seed, timeout=600)
+    if ssim.violated:
+        raise vlib.InfraError("LspSession simulation violated %s in the model" % ssim.violated)
+    sh = []
+    seen = set()
+    for h in ssim.tagged("HIST"):
+        k = json.dumps(h, sort_keys=True)
+        if k not in seen:
+            seen.add(k)
+            sh.append(h)
+    if len(sh) < snum // 2:
+        raise vlib.InfraError("LspSession simulation printed only %d distinct behaviours" % len(sh))
+    spath = vlib.write_ndjson(os.path.join(sc, "session.ndjson"), sh)
+    p = vlib.run([binp, "session", spath], check=False)
+    s3 = vlib.harness_results(ck, p, "document life cycle: ")
+    if s3["behaviours"] != len(sh):
+        raise vlib.InfraError("session harness replayed %d of %d behaviours" % (s3["behaviours"], len(sh)))
+    ck.set("session_behaviours", s3["behaviours"])
+    ck.set("session_steps", s3["steps"])
+    ck.set("session_negative_config", "DidOpen that keeps the preloaded copy violates ServerTracksEditor")
+
+    ck.set("traces_validated_against_impl", len(edges) + s2["behaviours"] + walks + s3["behaviours"])
     ck.set("exhaustive", True)
     ck.set("bounds", {"MaxLen": maxlen, "coordinates": "0..MaxLen+1", "texts": 7})
     ck.set("rule", "every (document <= MaxLen over {letter,newline}) x (start<=end range, each coordinate 0..MaxLen+1) x 7 texts, "
